@@ -644,8 +644,11 @@ class ParseNeighbor(Section):
             for family in neighbor.families():
                 m_neighbor = deepcopy(neighbor)
                 # deferred as below: the RIB shared with the running session was changed while a file
-                # which may still be refused was being read
-                m_neighbor.make_rib(defer=True, families={family})
+                # which may still be refused was being read.
+                # The copies keep all the families, hence one name and one RIB for all of them: narrowed
+                # to {family} that RIB was left serving the last family only, and the routes of the others
+                # were not announced again after a session loss (nor flushed, nor cleared)
+                m_neighbor.make_rib(defer=True)
                 self._init_neighbor(m_neighbor, local)
         else:
             # the RIB is shared with the running session: nothing of it changes before the file is accepted
